@@ -342,6 +342,15 @@ impl Prop for C18 {
         out.set_exhaustive("kitchen", true);
       }
       "object" => {
+        if shard == 0 {
+          // witness of the known AD 24 hole finding, and the days around it
+          for (y, m, d) in [(24i64, 1i64, 29i64), (24, 1, 30), (24, 2, 28), (24, 2, 29)] {
+            let ix = cal().index(y, m, d).unwrap() as i64;
+            for h in [0i64, 23] {
+              run_case(env, out, "object", &Case::ints(&[ix, h]), &ev);
+            }
+          }
+        }
         let total: u32 = env.tier.pick(8_000, 160_000);
         let hi_idx = cal().year_start[9999] as i64;
         prop_run(env, out, "object", total / nshards as u32, shard as u64, (0..hi_idx, 0i64..24).prop_map(|(i, h)| Case::ints(&[i, h])), &ev);
